@@ -34,7 +34,7 @@ CHECKS = {
                      "semantics-preserving normal form, with a truth-table fallback through the real evaluator) with the AST it was built from / "
                      "with what an independent recogniser of the documented grammar derives; every single-token corruption must be rejected or "
                      "parse to the recogniser's meaning; shipped rule files and regenerated texts included.",
-                note="Bounds: <=3 leaves, one corruption (incl. an unknown profile inside every used alias body), <=2 layout deviations; rules split over files x multipliers, also through create_rules on real files; SUPERIORS forks over five rules; reference recogniser mc/ref/grammar.py trusted; single-member (doubly negated) groups; multiplier products judged exactly (0.7, 1.13, 2.3); shipped rules also through Ruleset.from_files / copy with multipliers; minscore inside cds() left to C01; one open finding (C02-F1)."),
+                note="Bounds: <=3 leaves, one corruption (incl. an unknown profile inside every used alias body), <=2 layout deviations; rules split over files x multipliers, also through create_rules on real files; SUPERIORS forks over five rules; reference recogniser mc/ref/grammar.py trusted; single-member (doubly negated, also doubly parenthesised) groups; self-referring aliases parsed under a 3 s interval timer (a hang is a violation); multiplier products judged exactly (0.7, 1.13, 2.3); shipped rules also through Ruleset.from_files / copy with multipliers; minscore inside cds() left to C01; one open finding (C02-F1)."),
     "C03": dict(engine="E1", level="exploration", ref="DESIGN.md 5/C03",
                 technique="bounded exhaustive enumeration of gene layouts x hit tables x ruleset families through the real detection vs set-of-bases components/span/extension",
                 text="Every layout of <=3-4 genes at every position of a tiny line/ring (incl. origin-spanning genes), every hit table and five ruleset "
@@ -46,20 +46,20 @@ CHECKS = {
                 text="Every multiset of <=3-4 real Protocluster objects from a slotted menu (nested, touching, identical, origin-spanning cores and extents) "
                      "is supplied to a real Record in every order; universal invariants (membership, span, no duplicates, order independence) and the "
                      "documented kinds (reference = connected components over set-of-bases overlap plus the documented de-duplication) are compared.",
-                note="6-7 slots, <=4 protoclusters, plus five-protocluster families (two hybrids of different neighbourhood size + every further protocluster; >= 3 coinciding core boundaries); spans via the real connect_locations (C04); whole-record extents (clipped neighbourhoods) incl. two hybrid pairs at identical coordinates, sideloaded (strandless) and origin-crossing-core families; candidate numbering and member order compared across supply orders by content; kinds compared only where the reference is unambiguous (a weaker group arriving at coordinates held by two candidates)."),
+                note="6-7 slots, <=4 protoclusters, plus five-protocluster families (two hybrids of different neighbourhood size + every further protocluster; >= 3 coinciding core boundaries); spans via the real connect_locations (C04); whole-record extents (clipped neighbourhoods) incl. two hybrid pairs at identical coordinates, sideloaded (strandless) and origin-crossing-core families; candidate numbering and member order compared across supply orders by content; kinds compared only where the reference is unambiguous (a weaker group built from two candidates with the same coordinates); a weaker group only joins candidates it was built from."),
     "C07": dict(engine="E1", level="exploration", ref="DESIGN.md 5/C07",
                 technique="metamorphic exhaustive enumeration: every origin rotation and every rule permutation/sub-selection, differential against the base run",
                 text="Every gap-word layout x hit table x ruleset family is run through detection -> candidates -> regions at every one of the L rotations "
                      "of the origin (records rebuilt from scratch) and for every permutation / sub-selection of the rules; coordinate-free descriptions "
                      "must be identical (rotation: when every base region spans < L/2).",
-                note="L in {24,25}, <=3 genes, gaps {0,1,2,3,4,6}, plus layouts with a gene carrying a long intron and layouts with a short gene nested in a long one (ring of 36) under extender rules; descriptions computed by set-of-bases containment; no expected values needed."),
+                note="L in {24,25}, <=3 genes, gaps {0,1,2,3,4,6}, plus layouts with a gene carrying a long intron and layouts with a short gene nested in a long one (ring of 36, optionally with an unrelated far gene) under extender rules and a rule with cutoff 0; descriptions computed by set-of-bases containment; no expected values needed."),
     "C06": dict(engine="E1+E2", level="model_checking", ref="DESIGN.md 5/C06",
                 technique="explicit-state BFS over add/clear/create call histories of a real Record with a canonical state hash + bounded exhaustive enumeration of area sets vs connected components",
                 text="Part A: every set of <=3-4 areas (subregions, candidate clusters via real protoclusters) on a slotted line/ring through "
                      "create_regions, judged against connected components of set-of-bases overlap, span == union, numbering. Part B: breadth-first "
                      "search over all call histories up to depth 6/8 of a 15-16 operation alphabet on real Records; numbering, identity, parent/child "
                      "links, no stale references, clear+create idempotence and build-order independence are checked in every state.",
-                note="Canonicalisation drops only fields no public accessor exposes; enabling conditions follow the pipeline order (protoclusters -> candidates -> regions); depth bound 6 (quick) / 8 (thorough); input part: every set of <= 4 areas of the slotted menu (incl. one-sided neighbourhoods and a tight-core universe with small gaps between areas); features removed by clear_*() must no longer answer with a number."),
+                note="Canonicalisation drops only fields no public accessor exposes; enabling conditions follow the pipeline order (protoclusters -> candidates -> regions); depth bound 6 (quick) / 8 (thorough); input part: every set of <= 4 areas of the slotted menu (incl. one-sided neighbourhoods and a tight-core universe with small gaps between areas); features removed by clear_*() must no longer answer with a number nor keep a parent; regions added one by one with add_region() in every order."),
     "C09": dict(engine="E1", level="exploration", ref="DESIGN.md 5/C09",
                 technique="bounded exhaustive enumeration of gene structures x protein ranges through the real coordinate mapping vs the transcript-order list",
                 text="Every gene structure (strand, 1-3 exons at every cut incl. mid-codon, intron lengths, origin before/on every exon border/inside "
@@ -108,7 +108,7 @@ CHECKS = {
                      "order of the hit set (all n! for n<=4); hmmer.remove_overlapping and the detection filters are run on every permutation of their "
                      "input lists and every order of their internal sets. Post-conditions of the statement (sorted, no overlap beyond the margin, outputs are "
                      "inputs or legitimate merges, every drop is excused) and 'one result for all orders' are checked.",
-                note="Set-order hook owns all sets created in antiSMASH code; profile lengths 40/100 put the 20% margin, 1.5x span and 50%/33% completeness thresholds on menu boundaries; merging of fragments is permitted by the statement but not demanded by the oracle; hits shorter than the overlap limit and a bystander profile in the filter menus; two open findings (C13-F1 displaced by a discarded fragment, C13-F2 single positional pass), listed exactly."),
+                note="Set-order hook owns all sets created in antiSMASH code; profile lengths 40/100 put the 20% margin, 1.5x span and 50%/33% completeness thresholds on menu boundaries; merging of fragments is permitted by the statement but not demanded by the oracle; hits shorter than the overlap limit and a bystander profile in the filter menus; a third profile ten times as long as the first; 'of each overlapping group and of each profile' read as the two filter stages; three open findings (C13-F1 displaced by a discarded fragment, C13-F2 / C13-F3 single positional pass), listed exactly."),
     "C17": dict(engine="E3", level="model_checking", ref="DESIGN.md 5/C17",
                 technique="stateless deviation-bounded exploration of set-iteration orders (AST import hook over the whole antismash package), differential against the default order; conformance runs in plain interpreters under varied PYTHONHASHSEED",
                 text="Tie-laden scenarios run through detection -> annotation -> protoclusters -> candidates -> regions -> to_biopython -> GenBank/JSON "
@@ -130,7 +130,7 @@ CHECKS = {
                      "763 quick / 9690 thorough) is written to GenBank text and to the results JSON with the real writers, read back with the real readers "
                      "and written again: the first output must equal the second byte for byte and the canonical description (sequence, topology, every "
                      "emitted feature with qualifiers, area structure with numbers and cross references) must be unchanged.",
-                note="HMMER look-ups replaced by fixed hit tables; three module effects that need external tools are stood in for by their one-line effect on the record (smCOG note on a gene, SMILES/polymer on a candidate cluster, a plain precursor peptide); all other producer code is real; strand-less area locations are identified with forward ones (GenBank cannot distinguish); three open findings (C10-F1, C10-F2, C10-F3)."),
+                note="HMMER look-ups replaced by fixed hit tables; three module effects that need external tools are stood in for by their one-line effect on the record (smCOG note on a gene, SMILES/polymer on a candidate cluster, a plain precursor peptide); all other producer code is real; strand-less area locations are identified with forward ones (GenBank cannot distinguish); four open findings (C10-F1 .. C10-F4)."),
     "C12": dict(engine="E1", level="exploration", ref="DESIGN.md 5/C12",
                 technique="bounded exhaustive enumeration of every region of the annotated-record catalogue through the real region writer and readers; extraction equality + structural isomorphism + parent-unchanged",
                 text="Every region of every catalogue record (first/later region, at a record end, origin-spanning, with origin-spanning genes, several "
@@ -138,7 +138,7 @@ CHECKS = {
                      "holds exactly the region's sequence, every feature inside the region is present and extracts to the same bases, the loaded record has "
                      "one region with areas numbered from 1 and the same kinds/products/membership/cores/leader-tail pieces, and the full record and the "
                      "Biopython record passed in are unchanged.",
-                note="Aperiodic catalogue sequence so extraction equality pins coordinates; product order compared as a multiset for linearised origin-spanning regions; four open findings (C12-F1 .. C12-F4)."),
+                note="Aperiodic catalogue sequence so extraction equality pins coordinates; product order compared as a multiset for linearised origin-spanning regions; feature keys ignore the writer's wrapping of identifiers longer than a line; five open findings (C12-F1 .. C12-F5)."),
     "C11": dict(engine="E2", level="model_checking", ref="DESIGN.md 5/C11",
                 technique="explicit-state BFS over save/regenerate/option-change/tamper histories per results object (state = saved JSON + option vector + tamper flag, hashed), every regenerate transition executed on the real module-level regeneration against a fresh record; differential against fresh production under the changed settings",
                 text="For every results object of five families (rule detection, sideloading, NRPS/PKS domains+modules, HMMer domains, TTA) produced by "
